@@ -259,7 +259,7 @@ class Crate:
                 lst.append(fi)
 
     def mk_fn(self, f, self_ty, trait, impl_bounds, path, key):
-        if f.body is None and trait is None and self_ty is not None:
+        if f.body is None and trait is None and self_ty is not None and not f.rejected:
             raise Unsupported("function without body", path, f.line)
         own = self.bounds_of(f.params, path, f.line)
         bounds = list(impl_bounds) + own
